@@ -38,7 +38,10 @@ ASSUMPTIONS = [
     'partial filter expressions are drawn from {c: {$exists: true}}, {b: {$gt: 1}}, {a: 1}, '
     '{b: {$type: "double"}} and evaluated in the oracle by a tiny independent evaluator',
     'every step is followed by the harness\'s own read (the rule is judged on what find({}) shows '
-    'at the mocked clock, after the expiry pass); positional $ paths unmodelled',
+    'at the mocked clock, after the expiry pass)',
+    'these histories draw no positional $ paths (the positional operator is modelled '
+    'and judged under C02); a step the model '
+    'answers unmodelled for cuts the history there',
 ]
 
 known_labels = {e['id'] for e in common.load_known(ID) if e.get('status') == 'known'}
